@@ -554,6 +554,10 @@ outerNew:
 			if reposition {
 				if cursor.Hyperlink != "" {
 					_, _ = vx.tw.WriteString(tparm(osc8, "", ""))
+					// The link is closed now. Forget it, so that a
+					// cell continuing the same link opens it again
+					cursor.Hyperlink = ""
+					cursor.HyperlinkParams = ""
 				}
 				_, _ = vx.tw.WriteString(tparm(cup, row+1, col+1))
 				reposition = false
